@@ -190,8 +190,19 @@ def main():
                 res.fail(f"owned-row reactions do not add up elem={et}", "Σ over parts of the owned rows of K u differs from the global sum", ident)
 
     # ---------------- Mesh.Merge with a node mapping ----------------
+    def tiles(et):
+        return [M.mesh_2d(et, polygon=[(i, j), (i + 1, j), (i + 1, j + 1), (i, j + 1)], h=0.5) for i in (0, 1) for j in (0, 1)]
+
+    def pieces(et, N):
+        return list(build(et, N, 0.7))       # the parts of a split overlap in their ghost layers: nodes held by up to N parts
+
     for name, mk in (("TRI3 | QUAD4 sharing an edge", lambda: (M.mesh_2d("TRI3", polygon=[(0, 0), (1, 0), (1, 1), (0, 1)], h=0.5), M.mesh_2d("QUAD4", polygon=[(1, 0), (3, 0), (3, 1), (1, 1)], h=0.5))),
                      ("two disjoint TRI6", lambda: (M.mesh_2d("TRI6", polygon=[(0, 0), (1, 0), (1, 1), (0, 1)], h=0.5), M.mesh_2d("TRI6", polygon=[(2, 0), (3, 0), (3, 1), (2, 1)], h=0.5))),
+                     ("2 x 2 QUAD4 tiles (a corner shared by four meshes)", lambda: tiles("QUAD4")),
+                     ("2 x 2 TRI6 tiles (a corner shared by four meshes)", lambda: tiles("TRI6")),
+                     ("three coincident copies of a TRI3 mesh", lambda: [M.mesh_2d("TRI3", polygon=[(0, 0), (1, 0), (1, 1), (0, 1)], h=0.5) for _ in range(3)]),
+                     (f"the parts of a TRI3 mesh split in {4 + args.seed % 3} merged back", lambda: pieces("TRI3", 4 + args.seed % 3)),
+                     ("the parts of a QUAD8 mesh split in 5 merged back", lambda: pieces("QUAD8", 5)),
                      ("three TETRA4 boxes in a row", None)):
         if mk is None:
             a = M.mesh_3d("TETRA4", 1.0, 1.0, 1.0, 0.6, 1)
@@ -227,12 +238,35 @@ def main():
                     break
             if bad:
                 break
+        # coincident input nodes <-> one merged node; distinct elements <-> one merged element
+        if bad is None:
+            allX = np.vstack([np.asarray(m.coord) for m in meshes])
+            allmp = np.concatenate([np.asarray(mp) for mp in mapping])
+            keys = [tuple(r) for r in np.round(allX, 8).tolist()]
+            where = {}
+            for kx, mp_ in zip(keys, allmp.tolist()):
+                where.setdefault(kx, set()).add(mp_)
+            split_nodes = [kx for kx, v in where.items() if len(v) > 1]
+            if split_nodes:
+                bad = f"{len(split_nodes)} position(s) held by several input nodes are mapped to DIFFERENT merged nodes, e.g. {list(split_nodes[0])} -> {sorted(where[split_nodes[0]])}"
+            elif merged.Nn != len(where):
+                bad = f"the merged mesh has {merged.Nn} nodes for {len(where)} distinct positions"
+            else:
+                for t in {t for m in meshes for t, g in m.dict_groupElem.items() if g.dim == m.dim}:
+                    distinct = {tuple(sorted(r)) for m, mp in zip(meshes, mapping) if t in m.dict_groupElem for r in np.asarray(mp)[np.asarray(m.dict_groupElem[t].connect)].tolist()}
+                    if merged.dict_groupElem[t].Ne != len(distinct):
+                        bad = f"group {t} of the merged mesh has {merged.dict_groupElem[t].Ne} elements for {len(distinct)} distinct input elements"
+                        break
         total = sum(m.Nn for m in meshes)
         shared = total - merged.Nn
         allm = np.concatenate([np.asarray(mp) for mp in mapping])
         if bad is None and (len(np.unique(allm)) != merged.Nn):
             bad = "the mapping does not reach every node of the merged mesh"
         meas = sum((m.area if m.dim == 2 else m.volume) for m in meshes)
+        if "coincident copies" in name:
+            meas = meshes[0].area
+        elif "merged back" in name:
+            meas = 8.0          # the 4 x 2 rectangle the parts were cut from
         if bad is None and abs((merged.area if merged.dim == 2 else merged.volume) - meas) > 1e-9:
             bad = f"measure of the merged mesh {(merged.area if merged.dim == 2 else merged.volume)} != sum of the measures {meas}"
         if bad:
@@ -258,7 +292,7 @@ def main():
     res.search_note = "every split is a true partition with complete ghost layers, row-complete systems and additive owned-row sums"
     res.write("rectangle / extruded-box meshes of 2D / 3D element types split by gmsh into 2, 3, a random 4-7 (and up to 16) parts in a single process; every element group of every part: ownership of elements and nodes, "
               "ghost layer, connectivity, coordinates, reproducibility; K, M, F of an elastic simulation on each part vs the global ones on the owned rows, energy and reaction sums; Mesh.Merge with return_mapping on "
-              "meshes sharing an edge, disjoint, and three in a row; distinct = distinct (element type, part count, rank, check)")
+              "meshes sharing an edge, disjoint, three in a row, 2 x 2 tiles, three coincident copies and the overlapping parts of a split merged back (nodes held by 3 and more inputs); distinct = distinct (element type, part count, rank, check)")
 
 
 if __name__ == "__main__":
